@@ -107,6 +107,8 @@ def run(ctx):
         cfg = rng.choice(CONFIGS)
         batch = [reqgen.entry_of("notification", rng) for _ in range(rng.randint(1, 5))]
         one(ctx, fxs, cfg, json.dumps(batch), "all-notifications")
+    if ctx.shard == 0:
+        deep_ids(ctx, fxs)
     # (c) matrix slice
     size = reqgen.matrix_size()
     step = ctx.pick(11, 5)
@@ -116,6 +118,34 @@ def run(ctx):
         one(ctx, fxs, cfg, text, "matrix")
         if idx % 3 == 0:
             one(ctx, fxs, cfg, "[" + text + "," + json.dumps(reqgen.entry_of("call", rng)) + "]", "matrix-batch")
+
+
+def deep_ids(ctx, fxs):
+    """Structured ids nested deeply (the JSON parser accepts them): echoed as they are, alone and inside a batch whose
+    other entries keep their answers.  Compared as TEXT (the harness itself must not recurse that deep)."""
+    for depth in (50, 300, 450, 498, 520, 700, 900):
+        for opener, closer in (("[", "]"), ('{"k":', "}")):
+            idtext = opener * depth + "1" + closer * depth
+            for cfg in CONFIGS:
+                fx = fxs[cfg]
+                case = {"config": list(cfg), "bclass": "deep-id", "depth": depth, "kind": opener[0]}
+                ctx.case(("deep-id", cfg, depth, opener), nontrivial=True)
+                ctx.count("judged:deep-ids")
+                single = '{"jsonrpc": "2.0", "method": "echo", "params": [1], "id": %s}' % idtext
+                obs = dm.drive(fx, single)
+                flat = (obs.output or "").replace(" ", "")
+                if obs.raised is not None or idtext.replace(" ", "") not in flat:
+                    ctx.violate("id:deep-structured-id-not-echoed:single", case,
+                                {"raised": obs.raised, "output_head": (obs.output or "")[:200]})
+                batch = '[{"jsonrpc": "2.0", "method": "echo", "params": [1], "id": 41}, %s, ' \
+                        '{"jsonrpc": "2.0", "method": "echo", "params": [2], "id": 43}]' % single
+                obs = dm.drive(fx, batch)
+                flat = (obs.output or "").replace(" ", "")
+                ok = obs.raised is None and flat.startswith("[") and '"id":41' in flat and '"id":43' in flat \
+                    and idtext.replace(" ", "") in flat
+                if not ok:
+                    ctx.violate("count:deep-structured-id-collapses-the-batch", case,
+                                {"raised": obs.raised, "output_head": (obs.output or "")[:200]})
 
 
 def finalize(m, tier):
